@@ -23,6 +23,9 @@ EXPLANATION = ("for every operation, executed symbolically with a login reply of
 
 
 def interp_for(unit):
+    if unit.name.startswith("breeze_") or unit.name == "dep_thermostat_response":
+        from .breeze import breeze_interp
+        return breeze_interp()
     return interp_with_contracts()
 
 
@@ -80,8 +83,11 @@ def replay_case(o):
 
 
 def search_cases(o, seed):
+    if "control_breeze_device" in o["name"]:
+        return [{"prop": PROP, "kind": "breeze_sweep", "inputs": {"seed": seed, "n": 600}}]
     return [{"prop": PROP, "kind": "sweep", "inputs": {"seed": seed, "n": 600}}]
 
 
 def native_cases(tier, seed):
-    return [{"prop": PROP, "kind": "sweep", "inputs": {"seed": seed, "n": 600 if tier == "quick" else 20000}}]
+    return [{"prop": PROP, "kind": "sweep", "inputs": {"seed": seed, "n": 600 if tier == "quick" else 20000}},
+            {"prop": PROP, "kind": "breeze_sweep", "inputs": {"seed": seed, "n": 400 if tier == "quick" else 20000}}]
